@@ -121,11 +121,11 @@ Definition c04_boundary (s : snap) : issues :=
   ++ spec_if (sp_tips_scaled s - sp_tips s * P <=? 1000000) "tips escrow pool holds less than the credited rewards"
   ++ spec_if (sp_bridge s =? 0) "bridge account holds tokens at a block boundary".
 
-(* result 3 = a WithdrawTip was refused with "insufficient funds": the selector had whole-unit credit
-   (otherwise the message fails earlier) and the escrow pool could not pay it *)
+(* result 3 = a WithdrawTip, ClaimReward or WithdrawFeeRefund was refused with "insufficient funds": the
+   ledger granted the amount (otherwise the message fails earlier) and the escrow account could not pay it *)
 Definition c04_step (before : snap) (s : hstep) : issues :=
   (if (st_op s =? "EndBlock")%string && (st_result s =? 0) then c04_boundary (st_after s) else [])
-  ++ spec_if (negb (st_result s =? 3)) "a withdrawal of credited rewards failed for lack of funds in the tips escrow pool"
+  ++ spec_if (negb (st_result s =? 3)) ("a withdrawal or claim the ledger entitles to failed for lack of funds in its escrow account: " ++ st_op s)
   (* a tip moves amount - 2 % into the oracle account and books it on the query *)
   ++ (if (st_op s =? "Tip")%string && (st_result s =? 0) then
         match st_params s with
@@ -216,4 +216,8 @@ Definition c19_hist_check (c : hist_case) : issues :=
    the other selectors are then credited more than was paid in *)
 Definition hist_classes (c : hist_case) : list string :=
   let 'Hist init steps := c in
-  if forallb (fun s => sp_credits_nonneg (st_after s)) steps then [] else ["F06"%string].
+  (if forallb (fun s => sp_credits_nonneg (st_after s)) steps then [] else ["F06"%string])
+  (* finding C13b (C13): a dispute fee paid from stake is credited in full but escrowed with truncation *)
+  ++ (if existsb (fun s => ((st_op s =? "ProposeDispute") || (st_op s =? "AddFeeToDispute"))%string && (st_result s =? 0)
+                          && match st_params s with [1] => true | _ => false end) steps
+      then ["C13b"%string] else []).
